@@ -256,7 +256,7 @@ expression (`wfE`: literals, identifiers, all 21 two-operand operators in any ne
 `\` qualifiers, index `[i]` and `[i:j]`, function calls with any number of arguments, aggregate initialisers with and without
 repetition counts, QUERY) the precedence parser driven by the regenerated `%left/%right` levels, strata, omit-parentheses
 dispatch and index-operand rule returns exactly `norm e` on the tokens exppp prints for `e` in top-level position.
-Hypotheses in `wfE`: argument/item lists are proper spines; a real literal's printed text keeps a non-digit (`LitWF`). -/
+Hypotheses in `wfE`: argument/item lists are proper spines; the `%#.15g` text of a real literal contains its point (`LitWF`,\na property of printf's `#` flag; that `real2exp` keeps it is `C07_real_keeps_point`). -/
 theorem C07_parse_print (e : Expr) (hw : wfE e) :
     parse (toks Shared.clean e false none) = some (norm e) := by
   have E := ((parseOK_all e).1 hw).1
@@ -273,6 +273,12 @@ theorem C07_parse_print (e : Expr) (hw : wfE e) :
   rw [h]
   obtain ⟨j, hj⟩ : ∃ j, 8 * (T e false none).length + 8 - c = j + 1 := ⟨8 * (T e false none).length + 8 - c - 1, by omega⟩
   rw [hj, parseLoop_stop j 0 (norm e) [] (by simp [Fol])]
+
+/-- **`real2exp` keeps the decimal point** (was the hypothesis `LitWF`): the text `printf("%#.15g")` gives has a point, and after
+`real2exp` removed trailing zeros the spelling still has one — a REAL literal is never printed as an INTEGER literal -/
+theorem C07_real_keeps_point (g : List Char) (h : '.' ∈ g) :
+    '.' ∈ real2exp g ∧ (real2exp g).all Char.isDigit = false :=
+  ⟨real2exp_keeps_point g h, real2exp_not_all_digits g h⟩
 
 /-- … hence the text is accepted by the expression grammar and denotes the source expression up to re-association of
 operators that are associative in EXPRESS -/
